@@ -176,11 +176,12 @@ func (conn *Tunnel) requestConn() (err error) {
 				switch res.Status {
 				// Conection has been established.
 				case knxnet.NoError:
+					// Channel and sequence number change together, so that a sender never
+					// combines the new channel with the old connection's counter.
+					conn.seqMu.Lock()
 					conn.connMu.Lock()
 					conn.channel = res.Channel
 					conn.connMu.Unlock()
-
-					conn.seqMu.Lock()
 					conn.seqNumber = 0
 					conn.seqMu.Unlock()
 
